@@ -45,19 +45,26 @@ def parseEvs (s : String) : List PeerEv :=
     | ["leave", p] => some (.leave (natOr p 0))
     | _ => none)
 
-def World.onTEvents (w : World) (toks : List String) : World :=
-  let snaps := parseSnaps (w.pending.getD 1 "")
+def World.onTEventsAt (w : World) (toks : List String) (k : Nat) : World :=
+  let snaps := parseSnaps (w.pending.getD k "")
   let impl := parseEvs (toks.getD 1 "-")
   let model := canonEvs (watchPeers [] snaps)
   let w := if model != impl then
-      w.fail "corr" "tevents" s!"snapshots {w.pending.getD 1 ""}: model {",".intercalate (model.map evStr)}, implementation {toks.getD 1 "-"}" else w
+      w.fail "corr" "tevents" s!"snapshots {w.pending.getD k ""}: model {",".intercalate (model.map evStr)}, implementation {toks.getD 1 "-"}" else w
   -- C20: replaying the reported joins/leaves gives the last snapshot, which is also what Peers() reports
   let replay := sortNums (impl.foldl applyEv [])
   let last := sortNums ((snaps.getLast?.getD []).eraseDups)
   let members := sortNums ((commaList (arg toks "members")).map (fun t => natOr t 0))
   let w := if replay != last then
-      w.fail "C20" "membership" s!"snapshots {w.pending.getD 1 ""}: reported changes replay to {replay}, last snapshot is {last}" else w
+      w.fail "C20" "membership" s!"watcher {k}, snapshots {w.pending.getD k ""}: reported changes replay to {replay}, last snapshot is {last}" else w
   if members != last then w.fail "C20" "members" s!"Peers() reports {members}, last snapshot is {last}" else w
+
+/-- the first watcher of a topic -/
+def World.onTEvents (w : World) (toks : List String) : World := w.onTEventsAt toks 1
+
+/-- a later watcher of the same topic of the same adapter: it follows the membership on its own, from
+nothing, exactly like the first one -/
+def World.onTEvents2 (w : World) (toks : List String) : World := w.onTEventsAt toks 2
 
 def World.onTDelivered (w : World) (toks : List String) : World :=
   let msgs : List (Nat × List Nat) := (commaList (w.pending.getD 1 "-")).filterMap (fun m => match m.splitOn ":" with
@@ -107,6 +114,7 @@ def World.stepAll (w : World) (line : String) : World :=
   let toks := fields line
   match toks.headD "" with
   | "tevents" => { w with lineNo := w.lineNo + 1 }.onTEvents toks
+  | "tevents2" => { w with lineNo := w.lineNo + 1 }.onTEvents2 toks
   | "tdelivered" => { w with lineNo := w.lineNo + 1 }.onTDelivered toks
   | "tone" => { w with lineNo := w.lineNo + 1 }.onTOne toks
   | "tframe" => { w with lineNo := w.lineNo + 1 }.onTFrame toks
